@@ -411,6 +411,9 @@ class Program:
             # without verdict as for any rejected liquid call; silently accepted -> twin and records are compared
             return self.bad_form(sess)
         if r < 0.12:
+            if rng.random() < 0.15:
+                # a long protocol header: the worklist (and the file) grows past 1000 / 2048 records
+                return {"op": "bulk_comment", "n": rng.choice([999, 1000, 1001, 2049, 3000]), "text": "step ", "width": rng.choice([0, 40])}
             return g.gen_misc()
         if r < 0.19 and self.world.get("continue_after_rejection"):
             # a call the library refuses (caught by the script, which carries on)
